@@ -38,8 +38,12 @@ RULE = ("histories over (mti, sti, enabled): all period pairs in {0..12}^2 (comp
         "re-ticks), with reset(cycle_base), snapshot->restore and ISR writes at generated points and cycle "
         "bases 0 / small / straddling 2^31 / above 2^32 / above 2^40. Each history is executed on "
         "TimerScheduler, on PCE500Emulator._tick_timers/_simulate_wait and on Rust TimerContext::tick_timers. "
+        "Machine layer: per pair in {0..12}^2 (quick 2, thorough 24 programs) plus larger periods, a generated "
+        "NOP / MV IL,n+WAIT / HALT program stepped 24..73 times on PCE500Emulator.step and CoreRuntime.step with "
+        "ISR acknowledgements and real save/load snapshots at generated steps. "
         "Non-trivial = some active timer crosses >= 2 boundaries in the history, or a tick lands exactly on a "
-        "boundary, or one gap skips > 1 period; distinct = (mti, sti, enabled, hash of the op list).")
+        "boundary, or one gap skips > 1 period (machine layer: >= 2 target movements); distinct = (mti, sti, "
+        "enabled, hash of the op list / program+step schedule).")
 
 I32MAX = 2 ** 31 - 1
 ISR_MTI, ISR_STI = 0x01, 0x02
@@ -65,6 +69,15 @@ ASSUMPTIONS = [
     "be unchanged by a tick (docstring of PCE500Emulator._set_isr_bits: 'OR mask into ISR register')",
     "Rust finalize_instruction_with_clamp, timer_scale and preserve_phase=false are not part of the statement "
     "and are not exercised",
+    "PCE500Emulator._simulate_wait(n) is expected to advance cycle_count by n and to tick the scheduler once per "
+    "cycle (Rust lib.rs: 'mirroring Python _simulate_wait which burns I cycles and ticks timers/keyboard each "
+    "iteration')",
+    "machine layer: IMR = 0 so no interrupt is delivered and ticking is never suppressed; the two machines tick "
+    "at different points of a step (Python at the start of the next step, Rust at the end of this one), so after a "
+    "step ending at cycle C the target may be the smallest boundary > C-1 or > C; firing is observed through "
+    "target movement and the ISR bit; how many cycles an instruction takes is taken from the machine's own cycle "
+    "counter (cycle accounting, e.g. WAIT with I = 0 costing 65536 cycles in Python and 0 in CoreRuntime, is not "
+    "C13's subject); no Python<->Rust differential at machine level",
 ]
 
 
@@ -1047,7 +1060,9 @@ def run(ctx: Ctx) -> Report:
     rep = ctx.merge_reports(ctx.pmap(_any_shard, tasks))
     rep.rule = RULE
     rep.assumptions = list(ASSUMPTIONS)
-    rep.extra["small_period_pairs_complete"] = 169
+    rep.extra["small_period_pairs_covered"] = len({(c[0], c[1]) for c in configs if c[0] <= 12 and c[1] <= 12})
+    rep.extra["small_period_pairs_covered_machine"] = len({(c[0], c[1]) for c in mconfigs
+                                                           if c[0] <= 12 and c[1] <= 12})
     rep.exhaustive = False
     return rep
 
